@@ -148,7 +148,7 @@ func C02(c *Ctx) error {
 	n := c.N(6, 40)
 	perMethod := c.N(25, 120)
 	bt, items, err := buildBatch(n, func(i int) *ir.Request {
-		return gen.GenRuntimeFile(r.Fork(fmt.Sprint("c02-", i)), i, gen.RuntimeOpts{ManyMethods: i%2 == 1, RepeatedQuery: true, JSONNames: i%3 == 0, OptionalQuery: true})
+		return gen.GenRuntimeFile(r.Fork(fmt.Sprint("c02-", i)), i, gen.RuntimeOpts{ManyMethods: i%2 == 1, RepeatedQuery: true, JSONNames: i%3 == 0, OptionalQuery: true, BareMethod: true})
 	}, scratch.AddOpts{GoHTTP: true}, false)
 	if err != nil {
 		return err
@@ -186,7 +186,14 @@ func C02(c *Ctx) error {
 				sample := gen.RandomMessage(rr, md, &gen.ValOpts{PathBound: pb, SparseP: 0}, 0)
 				// URL values
 				target := strings.TrimSuffix(mi.svc.BasePath, "/")
-				for _, seg := range strings.Split(mi.m.Config.Path, "/")[1:] {
+				ownPath := ""
+				if mi.m.Config != nil {
+					ownPath = mi.m.Config.Path
+				} else {
+					// no (sebuf.http.config): the default route under the base path
+					ownPath = strings.TrimPrefix(mi.template, strings.TrimSuffix(mi.svc.BasePath, "/"))
+				}
+				for _, seg := range strings.Split(ownPath, "/")[1:] {
 					if strings.HasPrefix(seg, "{") {
 						name := seg[1 : len(seg)-1]
 						f := mi.in.Field(name)
